@@ -61,6 +61,7 @@ func C05(c *core.Ctx) {
 		}
 		c05poison(c)
 		c05sched(c, dev)
+		c05bystander(c, dev)
 		return
 	}
 	streams := codec.HostileStreams(c.Thorough())
@@ -141,6 +142,10 @@ func C05(c *core.Ctx) {
 		return
 	}
 	c05sched(c, dev)
+	if c.HasViolation() || c.Expired() {
+		return
+	}
+	c05bystander(c, dev)
 }
 
 // c05sched: the attacker's teardown races the fan-out of the witness' publishes to it.
@@ -272,3 +277,90 @@ func c05sched(c *core.Ctx, dev int) {
 }
 
 func init() { core.Register("C05", C05) }
+
+// c05bystander: the attacker's subscription follows a slow bystander's in the
+// subscriber list.  The witness publisher's processor is held inside the
+// delivery to the bystander (whose ring is full) - after it has looked up the
+// subscribers, the attacker among them.  The attacker is cut and torn down
+// completely; then the bystander reads again and the fan-out continues to the
+// attacker's stale entry.  The publisher must stay connected and the witness
+// subscriber must get every message.
+func c05bystander(c *core.Ctx, dev int) {
+	for _, q := range []byte{0, 1} {
+		q := q
+		name := fmt.Sprintf("cut-during-fanout/attacker-behind-slow-bystander/qos%d", q)
+		body := func() {
+			t := newTD()
+			wp := t.connect("WP", 0, 65535, false)
+			by := t.connect("BY", 256, 65535, false)
+			x := t.connect("X", 0, 65535, false)
+			ws := t.connect("WS", 0, 65535, false)
+			t.subscribe("BY", "wit/ness", 0)
+			t.subscribe("X", "wit/ness", q)
+			t.subscribe("WS", "wit/ness", 1)
+			if vsched.Failed() {
+				return
+			}
+			// big messages: the bystander's ring fills up, the publisher's processor parks in
+			// the delivery to it with the subscriber list (BY, X, WS) already looked up
+			for k := 0; k < 3; k++ {
+				wp.rc.Send(&refcodec.Packet{Type: refcodec.PUBLISH, Topic: []byte("wit/ness"), Payload: []byte(big(8000, byte(k)))})
+			}
+			t.settleExcept()
+			ws.rc.Take()
+			x.rc.Take()
+			vsched.Mark()
+			x.rc.Cut()
+			x.ended = true
+			t.settleExcept()
+			// the bystander reads again
+			by.noRead = false
+			for i := 0; i < 8; i++ {
+				t.settleExcept()
+			}
+			wp.rc.Send(&refcodec.Packet{Type: refcodec.PUBLISH, Topic: []byte("wit/ness"), QoS: q, ID: 30, Payload: []byte("after")})
+			for i := 0; i < 4; i++ {
+				t.settleExcept()
+			}
+			for _, w := range []*tdConn{wp, ws, by} {
+				if w.rc.EOF || w.rc.ReadErr != "" {
+					vsched.Failf("the broker closed the connection of %s although only the other client went away", w.name)
+					return
+				}
+			}
+			if t.badStream() {
+				return
+			}
+			n8k, nafter := 0, 0
+			for _, p := range publishesOn(ws.rc.Take(), "wit/ness") {
+				if len(p.Payload) == 8000 {
+					n8k++
+				} else if string(p.Payload) == "after" {
+					nafter++
+				}
+			}
+			// two of the three big messages were delivered before the mark
+			if n8k != 1 || nafter != 1 {
+				vsched.Failf("the witness subscriber received %d of 1 outstanding big messages and %d of 1 later messages", n8k, nafter)
+				return
+			}
+			wp.rc.Take()
+			wp.rc.Send(&refcodec.Packet{Type: refcodec.PINGREQ})
+			t.settleExcept()
+			if !hasType(wp.rc.Take(), refcodec.PINGRESP) {
+				vsched.Failf("the witness publisher gets no PINGRESP after the other client was cut")
+				return
+			}
+			t.checkEnded(nil)
+			vsched.Logf("ok")
+		}
+		st := c.RunSched(explore.SchedOpts{Name: name, Bound: -1, DevBound: dev, Cache: true, UseMark: true, Body: body, MaxPoints: 100000, Check: schedCheck, Shard: c.Shard, NShards: c.NShards},
+			func(v *explore.Violation) string { return "C05 " + name + " :: " + violClass(v.Message) })
+		if st != nil && c.Shard == 0 {
+			c.Rep.Sample(map[string]interface{}{"scenario": name, "deviations": dev, "executions": st.Executions, "states": st.States})
+		}
+		if c.HasViolation() || c.Expired() {
+			return
+		}
+	}
+}
